@@ -4,7 +4,7 @@ from ..px import const, is_const, is_agg, agg_get, mk_binop, TY, fmt_term
 from .. import px as P
 from .. import facts as F
 from .common import (where, short, final_read, self_field, entry_field, impl_fn, inherent_fn, poll_shape, cons_zone,
-                     aggregates, calls_named)
+                     aggregates, calls_named, method_name)
 
 
 def find_exactlen(ctx):
@@ -83,7 +83,9 @@ def chunk_len_term(o, d):
     return None
 
 
-def exactlen_table(ctx, rule):
+def exactlen_table(ctx, rule, eos_clause=False):
+    """eos_clause (C12): additionally, an error of the entity's stream may not zero the budget - a zero budget is what the
+    body reports as end-of-stream, and an error does not terminate the entity's stream, which the next poll consults again"""
     X = exactlen_rows(ctx)
     seen = {}
     for r in X["rows"]:
@@ -115,6 +117,12 @@ def exactlen_table(ctx, rule):
         elif ik == "Err":
             if ok != "Err":
                 bad = "inner error must surface as an error (gives %s)" % ok
+            elif eos_clause and Bf != B:
+                z = cons_zone(o, terms=(B, Bf))
+                if z.entails("Eq", Bf, const(0)) and not z.entails("Eq", B, const(0)):
+                    bad = ("the budget is zeroed when the entity's stream reports an error: the body then says end-of-stream (exact hint 0) although an "
+                           "error does not end the entity's stream - the next poll consults it again and passes on what it answers (a second "
+                           "error, or a too-long verdict)")
         elif ik == "Ok":
             ln = chunk_len_term(o, r["d"])
             if ln is None:
@@ -456,3 +464,92 @@ def exactlen_ctor_passthrough(ctx, rule):
             else:
                 ctx.ok(rule, "%s stores the entity stream and the length unchanged" % fn)
     ctx.floor(rule, n, 1, what="constructor paths of the length-checking stream")
+
+
+def layers_transparent(ctx, rule):
+    """the layers between the length-checking streams and the consumer add and remove nothing: `Body::poll_frame` and the
+    body stream enum's `poll_next` poll the wrapped stream exactly once on every path (they never answer from their own
+    bookkeeping) and hand its answer on unchanged - Pending as Pending, the end as the end, an error as that error, a chunk
+    as (a data frame of) that chunk. The one-shot variant, which wraps no stream, answers from its slot."""
+    from .common import helper_inline
+    e, pn = find_bodystream(ctx)
+    once = [v["name"] for v in once_variants(ctx, e)]
+    body = [a for a in ctx.facts.adts.values() if a["local"] and a["kind"] == "struct" and
+            any(f["ty"].startswith(e["path"]) for f in a["variants"][0]["fields"]) and "Proj" not in a["path"]]
+    pfs = []
+    for a in body:
+        pfs += impl_fn(ctx, "http_body::Body", a["path"], "poll_frame")
+    if not pfs or pn is None:
+        ctx.violation(rule, rule + "|shape", "UNRECOGNISED: no http_body::Body::poll_frame over the body stream enum %s" % e["path"])
+        return
+    nstream = len(e["variants"]) - len(once)
+    for layer, fn in [("frame", f) for f in pfs] + [("stream", pn)]:
+        outs = ctx.px(fn, inline=helper_inline(ctx, own=(e["path"],) + tuple(a["path"] for a in body)), key="helpers")
+        polled = set()
+        nrows = 0
+        for o in outs:
+            if o.kind != "return":
+                if o.kind not in ("panic", "unreachable"):
+                    ctx.violation(rule, rule + "|%s|exit" % layer, "%s leaves by a %s exit" % (fn, o.kind))
+                continue
+            nrows += 1
+            polls = [ev for ev in o.events if ev["k"] == "call" and method_name(ev["callee"]) in ("poll_next", "poll_next_unpin", "poll_frame", "try_poll_next")
+                     and (ev["callee"].get("res_path") or "") != pn]
+            takes = [ev for ev in o.events if ev["k"] == "write" and ev.get("via") in ("Option::take", "mem::take", "mem::replace")]
+            kind, payload = poll_shape(o.value)
+            if len(polls) > 1:
+                ctx.violation(rule, rule + "|%s|polled-twice" % layer, "%s polls the wrapped stream %d times on one path: an answer is dropped" % (fn, len(polls)),
+                              where=where(polls[1]))
+                continue
+            if not polls:
+                # only the one-shot variant may answer without polling: from its slot (C20.R2 reads how), or the end when the
+                # slot is known to be empty
+                slot_none = any(isinstance(t, tuple) and t and t[0] == "payload" and t[2] in once and vn == "None" for t, vn in o.cons.variant.items())
+                slot_known = any(isinstance(t, tuple) and t and t[0] == "payload" and t[2] in once for t in o.cons.variant) or \
+                    any(vn in once for vn in o.cons.variant.values())
+                if takes and (slot_known or layer == "stream"):
+                    ctx.ok(rule, "%s layer, one-shot row: answers from the slot it empties (%s)" % (layer, kind))
+                elif slot_none and kind == "None":
+                    ctx.ok(rule, "%s layer, one-shot row with an empty slot: the end" % layer)
+                else:
+                    ctx.violation(rule, rule + "|%s|unpolled|%s" % (layer, kind),
+                                  "%s answers %s without polling the wrapped stream: what the stream would deliver next (data, an error, the "
+                                  "too-short / too-long verdict) is lost" % (fn, kind if kind != "?" else short(o.value, 60)))
+                continue
+            ev = polls[0]
+            r = ev["result"]
+            polled.add(ev["callee"].get("res_path") or ev["callee"].get("path"))
+            if o.value == r:
+                ctx.ok(rule, "%s layer: returns the wrapped stream's answer itself" % layer, where=where(ev))
+                continue
+            pv = o.cons.variant_of(r)
+            want = wantp = None
+            if pv == "Pending":
+                want = "Pending"
+            elif pv == "Ready":
+                p1 = ("payload", r, "Ready", "0")
+                ov = o.cons.variant_of(p1)
+                if ov == "None":
+                    want = "None"
+                elif ov == "Some":
+                    p2 = ("payload", p1, "Some", "0")
+                    rv = o.cons.variant_of(p2)
+                    if rv in ("Ok", "Err"):
+                        want, wantp = rv, ("payload", p2, rv, "0")
+            if want is None:
+                ctx.violation(rule, rule + "|%s|undecided" % layer, "UNRECOGNISED: %s returns %s without having inspected the wrapped stream's answer" % (fn, short(o.value, 80)),
+                              where=where(ev))
+                continue
+            good = kind == want
+            if good and want == "Err":
+                good = payload == wantp
+            if good and want == "Ok":
+                good = payload == wantp or (isinstance(payload, tuple) and payload and payload[0] == "call" and payload[1].endswith("Frame::<T>::data") and
+                                            len(payload[2]) == 1 and payload[2][0] == wantp)
+            if good:
+                ctx.ok(rule, "%s layer: the wrapped stream's %s is handed on as %s" % (layer, want, kind), where=where(ev))
+            else:
+                ctx.violation(rule, rule + "|%s|%s-as-%s" % (layer, want, kind),
+                              "%s turns the wrapped stream's answer %s into %s" % (fn, want, kind if good or kind != want else "%s of something else (%s)" % (kind, short(payload, 60))),
+                              where=where(ev))
+        ctx.floor(rule, len(polled), nstream, what="wrapped stream types polled by the %s layer" % layer)
